@@ -185,14 +185,25 @@ def r2(repo, run):
             verdicts.add(('ok', 'parent.ayns.remove_child(name): dynamic dispatch to the parent\'s own remove_child (updates both stores of dict/list parents)'))
         elif recv.split('.')[0] in repo.classes and e.args and e.args[0].text == '%s[-2][0]' % N:
             verdicts.add(('bad', 'remove_node removes through %s.remove_child: an explicit (base-class) function bypasses ConfigDict/ConfigList.remove_child, leaving the detached child in the built-in storage of its parent' % recv))
-        elif N in recv:
+        elif N in recv and _re_index_only(recv, e.args[0].text if e.args else '', N):
             verdicts.add(('bad', 'the removal is applied to %s with %s, not to the parent of the addressed node with its name' % (recv[:60], e.args[0].text[:40] if e.args else None)))
+        elif N in recv:
+            # the chain is taken apart some other way (unpacking, helper): which node the removal is applied to is decided by
+            # evaluation (unitrules.remove_node_table, C16.R7)
+            verdicts.add(('ok', 'removal through the looked-up chain (operands decided by the evaluated table)'))
         else:
             raise AnalysisError('remove_node: removal call %s not recognised' % e.callee[:80])
     if not n:
         raise AnalysisError('remove_node: no removing path')
     for v in sorted(verdicts):
         (run.ok if v[0] == 'ok' else run.violation)('C16.R2', rn, 'remove_node dispatch', v[1])
+
+
+def _re_index_only(recv, arg, N):
+    """receiver and argument are plain constant subscripts of the looked-up chain (N[i][j].ayns / N[i][j]): a shape the rule can judge"""
+    import re
+    pat = re.escape(N) + r'(\[-?\d+\])+'
+    return bool(re.fullmatch(pat + r'(\.ayns)?', recv)) and bool(re.fullmatch(pat, arg))
 
 
 def r3(repo, run):
